@@ -194,10 +194,11 @@ func runC06(ctx *Ctx) {
 				cfg.ListBurst = 64
 			}
 			b := cfg.GenStream(rt, t.Desc, 0)
+			orig := append([]byte{}, b...)
 			labels := map[string]int{}
 			b = mutate(rt, ctx, t, b, labels)
 			ctx.MergeLabels(labels)
-			return &Case{Sub: "mutate", Type: string(t.Name), Bytes: hexs(b)}
+			return &Case{Sub: "mutate", Type: string(t.Name), Bytes: hexs(b), Bytes2: hexs(orig)}
 		}, func(c *Case) error { return checkDecodeTotal(ctx, c) })
 	}
 	runDepthArm(ctx)
@@ -281,6 +282,30 @@ func decodeGuarded(t *model.Type, b []byte, opts proto.UnmarshalOptions, measure
 	}
 }
 
+// decodeGuardedInto is decodeGuarded for an existing object (proto.Unmarshal resets it first).
+func decodeGuardedInto(p proto.Message, b []byte) (res decodeResult, hung bool) {
+	done := make(chan decodeResult, 1)
+	go func() {
+		var r decodeResult
+		defer func() {
+			if x := recover(); x != nil {
+				r.panicked = x
+				buf := make([]byte, 4096)
+				r.stack = string(buf[:runtime.Stack(buf, false)])
+			}
+			done <- r
+		}()
+		r.p = p
+		r.err = proto.Unmarshal(b, p)
+	}()
+	select {
+	case r := <-done:
+		return r, false
+	case <-time.After(20 * time.Second):
+		return decodeResult{}, true
+	}
+}
+
 func checkDecodeTotal(ctx *Ctx, c *Case) error {
 	t, err := mustType(c.Type)
 	if err != nil {
@@ -341,12 +366,38 @@ func checkDecodeTotal(ctx *Ctx, c *Case) error {
 	default:
 		ctx.Label("variant " + v.name + ": rejected")
 	}
+	// the object that just went through a (possibly failed) decode is reused for
+	// the well-typed stream the input was derived from: nothing a call leaves
+	// behind - in the object or in package-level scratch state - may show
+	reuse := func() error {
+		if c.Bytes2 == "" && c.Sub != "mutate" {
+			return nil
+		}
+		orig := unhex(c.Bytes2)
+		if dref, derr := decodeD(t, orig); derr == nil && res.p != nil {
+			rres, rhung := decodeGuardedInto(res.p, orig)
+			switch {
+			case rhung:
+				ctx.Label("slow call on reuse (not reported)")
+			case rres.panicked != nil:
+				return fmt.Errorf("Unmarshal of a well-typed stream into the object used for the previous input panicked: %v\n%s", rres.panicked, trunc(rres.stack, 1200))
+			case rres.err != nil:
+				return fmt.Errorf("after decoding the input (result: %v) the same object rejects a well-typed stream: %v", res.err, rres.err)
+			default:
+				if got, want := canonI(res.p), canonD(dref.ProtoReflect()); got != want {
+					return fmt.Errorf("after decoding the input (result: %v) the same object decodes a well-typed stream to another value: %s", res.err, diffStr(got, want))
+				}
+				ctx.Label("object reused after the input")
+			}
+		}
+		return nil
+	}
 	if res.err != nil {
 		ctx.Label("rejected")
 		if len(b) > 2 {
 			ctx.Nontrivial(c.Type, c.Bytes)
 		}
-		return nil
+		return reuse()
 	}
 	ctx.Label("accepted")
 	p := res.p
@@ -357,7 +408,7 @@ func checkDecodeTotal(ctx *Ctx, c *Case) error {
 	if canonI(p) != "{}" {
 		ctx.Nontrivial(c.Type, c.Bytes)
 	}
-	return nil
+	return reuse()
 }
 
 // usable exercises exactly the post-conditions the property states for an
@@ -502,6 +553,7 @@ type depthCase struct {
 	Limit  int    `json:"limit"`
 	Hops   []int  `json:"hops,omitempty"` // explicit walk (field numbers) instead of the cyclic path
 	Width  int    `json:"width,omitempty"` // > 1: that many records per level (empty siblings before the nested one)
+	Alloc  int    `json:"alloc,omitempty"` // > 0: allocation growth between Levels and 2*Levels with an unknown record per level (1 varint before, 2 varint after, 3 bytes before, 4 bytes after the child)
 }
 
 // walkPayload nests empty messages along an explicit walk of message-typed
@@ -598,6 +650,9 @@ func runDepthArm(ctx *Ctx) {
 			cases = append(cases, depthCase{Type: string(t.Name), Levels: r - 1, Limit: r, Width: 5}, depthCase{Type: string(t.Name), Levels: r, Limit: r, Width: 5})
 		}
 		cases = append(cases, depthCase{Type: string(t.Name), Levels: 2, Limit: 0, Width: 10050}) // > 10000 siblings under the default limit
+		for a := 1; a <= 4; a++ {
+			cases = append(cases, depthCase{Type: string(t.Name), Levels: 1500, Alloc: a})
+		}
 		for _, d := range []int{9990, 9998, 9999, 10000, 10001, 10010} {
 			cases = append(cases, depthCase{Type: string(t.Name), Levels: d, Limit: 0})
 		}
@@ -636,7 +691,7 @@ func runDepthArm(ctx *Ctx) {
 			var dc depthCase
 			parts := strings.SplitN(strings.TrimPrefix(ln, "DEPTH-BAD "), " :: ", 2)
 			_ = json.Unmarshal([]byte(parts[0]), &dc)
-			ctx.Violation(&Case{Sub: "depth", Type: dc.Type, Args: map[string]string{"levels": strconv.Itoa(dc.Levels), "limit": strconv.Itoa(dc.Limit), "hops": hopsStr(dc.Hops), "width": strconv.Itoa(dc.Width)}}, parts[1])
+			ctx.Violation(&Case{Sub: "depth", Type: dc.Type, Args: map[string]string{"levels": strconv.Itoa(dc.Levels), "limit": strconv.Itoa(dc.Limit), "hops": hopsStr(dc.Hops), "width": strconv.Itoa(dc.Width), "alloc": strconv.Itoa(dc.Alloc)}}, parts[1])
 			ctx.T.Fail()
 			current = ""
 		case ln == "DEPTH-DONE":
@@ -647,7 +702,7 @@ func runDepthArm(ctx *Ctx) {
 		// the child died: the case it announced last is the witness
 		var dc depthCase
 		if current != "" && json.Unmarshal([]byte(current), &dc) == nil {
-			ctx.Violation(&Case{Sub: "depth", Type: dc.Type, Args: map[string]string{"levels": strconv.Itoa(dc.Levels), "limit": strconv.Itoa(dc.Limit), "hops": hopsStr(dc.Hops), "width": strconv.Itoa(dc.Width)}},
+			ctx.Violation(&Case{Sub: "depth", Type: dc.Type, Args: map[string]string{"levels": strconv.Itoa(dc.Levels), "limit": strconv.Itoa(dc.Limit), "hops": hopsStr(dc.Hops), "width": strconv.Itoa(dc.Width), "alloc": strconv.Itoa(dc.Alloc)}},
 				fmt.Sprintf("child process died while decoding nesting depth %d with RecursionLimit %d (err=%v): %s", dc.Levels, dc.Limit, err, trunc(tailStr(out.String(), 600), 600)))
 			ctx.T.Fail()
 		} else {
@@ -679,16 +734,80 @@ func depthChild() {
 		if err != nil {
 			fmt.Printf("DEPTH-BAD %s :: %s\n", js, strings.ReplaceAll(err.Error(), "\n", " | "))
 		} else {
-			fmt.Printf("DEPTH-OK %s %d/%s/w%d %d %s\n", dc.Type, dc.Levels, hopsStr(dc.Hops), dc.Width, dc.Limit, verdict)
+			fmt.Printf("DEPTH-OK %s %d/%s/w%d/a%d %d %s\n", dc.Type, dc.Levels, hopsStr(dc.Hops), dc.Width, dc.Alloc, dc.Limit, verdict)
 		}
 	}
 	fmt.Println("DEPTH-DONE")
+}
+
+// allocGrowth decodes a chain of n and of 2n levels that carries an unknown
+// record at every level (before or after the nested child) and compares the
+// bytes allocated: proportional to the input means about twice as much for
+// twice the input; a per-level cost that depends on the remaining input makes
+// it four times.
+func allocGrowth(t *model.Type, path []hop, n, where int) (string, error) {
+	build := func(levels int) []byte {
+		unk := protowire.AppendVarint(protowire.AppendTag(nil, 19500, protowire.VarintType), 1)
+		if where >= 3 {
+			unk = protowire.AppendBytes(protowire.AppendTag(nil, 19501, protowire.BytesType), []byte("unknown"))
+		}
+		var b []byte
+		for i := levels - 1; i >= 0; i-- {
+			h := path[i%len(path)]
+			var rec []byte
+			if h.isMap {
+				entry := protowire.AppendBytes(protowire.AppendTag(nil, 2, protowire.BytesType), b)
+				rec = protowire.AppendBytes(protowire.AppendTag(nil, h.num, protowire.BytesType), entry)
+			} else {
+				rec = protowire.AppendBytes(protowire.AppendTag(nil, h.num, protowire.BytesType), b)
+			}
+			if where%2 == 1 {
+				b = append(append([]byte{}, unk...), rec...)
+			} else {
+				b = append(rec, unk...)
+			}
+		}
+		return b
+	}
+	measure := func(b []byte) (uint64, error) {
+		runtime.GC()
+		var m0, m1 runtime.MemStats
+		p := t.New()
+		runtime.ReadMemStats(&m0)
+		err := proto.Unmarshal(b, p)
+		runtime.ReadMemStats(&m1)
+		runtime.KeepAlive(p)
+		return m1.TotalAlloc - m0.TotalAlloc, err
+	}
+	b1, b2 := build(n), build(2*n)
+	a1, e1 := measure(b1)
+	a2, e2 := measure(b2)
+	if e1 != nil || e2 != nil {
+		return "", fmt.Errorf("nesting %d / %d levels with an unknown record at every level: Unmarshal failed: %v / %v", n, 2*n, e1, e2)
+	}
+	if a1 == 0 {
+		a1 = 1
+	}
+	ratio := float64(a2) / float64(a1)
+	// linear behaviour gives ~2.0 (the inputs are %d and %d bytes); 3.0 leaves room
+	// for size-class rounding, and small totals are not judged at all
+	if ratio > 3.0 && a2 > 8<<20 {
+		return "", fmt.Errorf("allocation out of proportion to the input: %d bytes of input (%d levels) allocate %d bytes, %d bytes of input (%d levels) allocate %d bytes: %.2f times as much for twice the input", len(b1), n, a1, len(b2), 2*n, a2, ratio)
+	}
+	return fmt.Sprintf("alloc-growth-x%.1f", ratio), nil
 }
 
 func checkDepth(dc depthCase) (string, error) {
 	t, err := mustType(dc.Type)
 	if err != nil {
 		return "", err
+	}
+	if dc.Alloc > 0 {
+		path := cyclePath(t.Desc)
+		if path == nil {
+			return "not-recursive", nil
+		}
+		return allocGrowth(t, path, dc.Levels, dc.Alloc)
 	}
 	var b []byte
 	if len(dc.Hops) > 0 {
@@ -733,7 +852,7 @@ func checkDepth(dc depthCase) (string, error) {
 func replayC06(ctx *Ctx, c *Case) error {
 	switch c.Sub {
 	case "depth":
-		_, err := checkDepth(depthCase{Type: c.Type, Levels: c.argInt("levels"), Limit: c.argInt("limit"), Hops: parseHops(c.arg("hops")), Width: c.argInt("width")})
+		_, err := checkDepth(depthCase{Type: c.Type, Levels: c.argInt("levels"), Limit: c.argInt("limit"), Hops: parseHops(c.arg("hops")), Width: c.argInt("width"), Alloc: c.argInt("alloc")})
 		return err
 	case "fuzz":
 		return fuzzOne(ctx, unhex(c.Bytes))
